@@ -6,9 +6,9 @@ import (
 	"crypto/sha256"
 	"encoding/hex"
 	"encoding/json"
+	"fmt"
 	"os"
 	"os/exec"
-	"fmt"
 	"sort"
 	"strings"
 
@@ -327,6 +327,60 @@ func historyDigestsRestarted(u *Universe, h *History, at int, path string) ([]st
 	return out, nil
 }
 
+// historyDigestsMempool is a replica with another view of the mempool: it is asked to check no transaction at
+// all (strip) or every transaction twice right before it is delivered. Digests of the mempool checks themselves
+// are left out (empty string): they are not part of the block sequence.
+func historyDigestsMempool(u *Universe, h *History, strip bool) []string {
+	im := NewImpl(u)
+	out := []string{}
+	for _, op := range h.Ops {
+		if op.Kind == "check" {
+			if !strip {
+				im.Do(op)
+			}
+			out = append(out, "")
+			continue
+		}
+		if op.Kind == "deliver" && !strip {
+			im.Do(&Op{Kind: "check", Tx: op.Tx})
+			im.Do(&Op{Kind: "check", Tx: op.Tx})
+		}
+		r := im.Do(op)
+		sum := sha256.Sum256(append(append([]byte(r.Obs), 0), r.Bytes...))
+		out = append(out, hex.EncodeToString(sum[:8]))
+	}
+	return out
+}
+
+// longSenderHistory: one keyper gets far more transactions executed than any generated history has (1300
+// block-seen reports, ten per block), then all of them are submitted once more. Bookkeeping that changes its
+// behaviour with size (pruning, limits, rehashing) shows up here if it is not a function of the block sequence.
+func longSenderHistory(u *Universe) *History {
+	in := &InitSpec{Chain: "c0", Keypers: append([]common.Address{}, u.Addrs[:3]...), Threshold: 2, ForkOn: true,
+		Validators: []ValPower{{Key: valKey(100), Power: 10}}}
+	ops := []*Op{{Kind: "init", Init: in}}
+	txs := []*TxSpec{}
+	h := int64(0)
+	for b := 0; b < 130; b++ {
+		h++
+		ops = append(ops, &Op{Kind: "begin", Height: h})
+		for i := 0; i < 10; i++ {
+			t := &TxSpec{Signer: 0, Chain: in.Chain, Nonce: uint64(len(txs) + 1), P: Payload{Kind: "bs", A: uint64(len(txs) + 1)}}
+			txs = append(txs, t)
+			ops = append(ops, &Op{Kind: "deliver", Tx: t})
+		}
+		ops = append(ops, &Op{Kind: "end", Height: h}, &Op{Kind: "commit"})
+	}
+	h++
+	ops = append(ops, &Op{Kind: "begin", Height: h})
+	for _, t := range txs {
+		c := *t
+		ops = append(ops, &Op{Kind: "deliver", Tx: &c})
+	}
+	ops = append(ops, &Op{Kind: "end", Height: h}, &Op{Kind: "commit"}, &Op{Kind: "state"})
+	return &History{Seed: 0, N: len(u.Addrs), Ops: ops}
+}
+
 // ReplicaMain is the second replica: a separate OS process fed the same histories on stdin.
 func ReplicaMain() {
 	sc := bufio.NewScanner(os.Stdin)
@@ -352,7 +406,7 @@ func ReplicaMain() {
 func monitorC09(cfg CheckConfig, res *hx.Result, traces []*Trace) error {
 	repeats := 6
 	if cfg.Tier == "thorough" {
-		repeats = 24
+		repeats = 10
 	}
 	// replica in another OS process with a different runtime configuration
 	self, err := os.Executable()
@@ -415,6 +469,31 @@ func monitorC09(cfg CheckConfig, res *hx.Result, traces []*Trace) error {
 				return nil
 			}
 		}
+		// replicas with other mempools: the answers to the block sequence do not depend on what was checked
+		for _, strip := range []bool{true, false} {
+			got := historyDigestsMempool(NewUniverse(t.H.N), t.H, strip)
+			name := "replica that checked every transaction twice before it was delivered vs the history's own mempool checks"
+			if strip {
+				name = "replica that was asked to check no transaction vs the history's own mempool checks"
+			}
+			res.Count("c09:mempool-replica-comparisons")
+			stop := false
+			for k := range base {
+				// (the canonical state text lists the mempool's own bookkeeping, so it is not compared here)
+				if t.H.Ops[k].Kind == "check" || t.H.Ops[k].Kind == "state" {
+					continue
+				}
+				if k >= len(got) || got[k] != base[k] {
+					ops := t.H.Ops[:k+1]
+					specViolation(cfg, res, "replica-divergence", fmt.Sprintf("replicas diverge (%s) at op %d: %s", name, k, ops[k].Line(t.U)), t.U, ops)
+					stop = true
+					break
+				}
+			}
+			if stop {
+				return nil
+			}
+		}
 		// a replica that was stopped and started again from its state file in between
 		{
 			commits := []int{}
@@ -426,7 +505,7 @@ func monitorC09(cfg CheckConfig, res *hx.Result, traces []*Trace) error {
 			pick := hx.NewRand(cfg.Seed ^ uint64(i)*0x9E37 ^ 0xC09)
 			points := 3
 			if cfg.Tier == "thorough" {
-				points = 40
+				points = 6
 			}
 			for n := 0; n < points && len(commits) > 0; n++ {
 				at := commits[pick.Intn(len(commits))]
@@ -460,6 +539,23 @@ func monitorC09(cfg CheckConfig, res *hx.Result, traces []*Trace) error {
 			res.Count("c09:in-process-reruns")
 			if !cmp(fmt.Sprintf("in-process rerun %d", r), historyDigests(NewUniverse(t.H.N), t.H)) {
 				return nil
+			}
+		}
+	}
+	// one long history of a single sender
+	{
+		u := NewUniverse(4)
+		lh := longSenderHistory(u)
+		base := historyDigests(u, lh)
+		for rr := 0; rr < 3; rr++ {
+			got := historyDigests(NewUniverse(4), lh)
+			res.Count("c09:long-sender-history-reruns")
+			for k := range base {
+				if got[k] != base[k] {
+					ops := lh.Ops[:k+1]
+					specViolation(cfg, res, "replica-divergence", fmt.Sprintf("replicas diverge (in-process rerun of the long single-sender history: 1300 executed transactions of one keyper, then all of them again) at op %d: %s", k, ops[k].Line(u)), u, []*Op{lh.Ops[0], ops[k]})
+					return nil
+				}
 			}
 		}
 	}
